@@ -21,6 +21,7 @@ package main
 
 import (
 	"bytes"
+	"crypto/sha1"
 	"context"
 	"encoding/json"
 	"errors"
@@ -48,6 +49,9 @@ const (
 	shortInit      = 40 * time.Millisecond
 	shortBeat      = 25 * time.Millisecond
 	far            = time.Hour
+	// "far" for the init timer: its goroutine cannot be stopped from outside (only by an accepted
+	// connection_init), so it is made to end by itself long after the case is over
+	farInit = 90 * time.Second
 )
 
 // ----------------------------------------------------------------------------- inputs
@@ -59,6 +63,7 @@ type inp struct {
 	tok     int    // flush/ret: concrete goroutine token (resolved at run time when pick >= 0)
 	pick    int    // flush/ret: choose live[pick % len(live)]; -1: tok is concrete
 	variant int    // which wire rendering
+	again   bool   // ret: observed -- the goroutine entered Execute again (go) or ended (end)
 }
 
 func (x inp) isClient() bool {
@@ -80,7 +85,10 @@ func (x inp) String() string {
 	case "flush":
 		return fmt.Sprintf("(flush %d)", x.tok)
 	case "ret":
-		return fmt.Sprintf("(ret %d %s)", x.tok, x.arg)
+		if x.again {
+			return fmt.Sprintf("(ret %d %s go)", x.tok, x.arg)
+		}
+		return fmt.Sprintf("(ret %d %s end)", x.tok, x.arg)
 	}
 	return "(" + x.kind + ")"
 }
@@ -394,9 +402,9 @@ type cfg struct {
 }
 
 var cfgs = map[string]cfg{
-	"far":         {"far", far, far},
+	"far":         {"far", farInit, far},
 	"inittimeout": {"inittimeout", shortInit, far},
-	"hb":          {"hb", far, shortBeat},
+	"hb":          {"hb", farInit, shortBeat},
 }
 
 type step struct {
@@ -613,6 +621,9 @@ func runCase(proto string, c cfg, script []inp) result {
 					c = "flush"
 				}
 				stuck = release(e, c)
+				w.mu.Lock()
+				x.again = !e.finished
+				w.mu.Unlock()
 			}
 			record(x, stuck)
 		case x.kind == "inittimeout":
@@ -660,7 +671,10 @@ func runCase(proto string, c cfg, script []inp) result {
 		}
 		e := live[0]
 		stuck := release(e, "data")
-		record(inp{kind: "ret", tok: e.tok, arg: "data", pick: -1}, stuck)
+		w.mu.Lock()
+		again := !e.finished
+		w.mu.Unlock()
+		record(inp{kind: "ret", tok: e.tok, arg: "data", pick: -1, again: again}, stuck)
 		if stuck != "" {
 			break
 		}
@@ -961,6 +975,33 @@ func runJobs(jobs []job, workers int) []string {
 	return lines
 }
 
+type sink struct {
+	out     *common.Out
+	workers int
+	buf     []job
+	seen    map[[20]byte]bool
+	written int
+}
+
+func (s *sink) add(j job) {
+	s.buf = append(s.buf, j)
+	if len(s.buf) >= 40000 {
+		s.flush()
+	}
+}
+
+func (s *sink) flush() {
+	for _, l := range runJobs(s.buf, s.workers) {
+		h := sha1.Sum([]byte(l))
+		if !s.seen[h] {
+			s.seen[h] = true
+			s.out.Line(l)
+			s.written++
+		}
+	}
+	s.buf = s.buf[:0]
+}
+
 func main() {
 	if len(os.Args) < 2 {
 		fmt.Fprintln(os.Stderr, "usage: c19 gen|corpus ...")
@@ -969,8 +1010,7 @@ func main() {
 	args := common.Args(os.Args[2:])
 	out := common.NewOut(args["out"])
 	defer out.Close()
-	workers := common.ArgInt(args, "workers", 16)
-	var jobs []job
+	sk := &sink{out: out, workers: common.ArgInt(args, "workers", 16), seen: map[[20]byte]bool{}}
 	switch os.Args[1] {
 	case "corpus":
 		data, err := os.ReadFile(args["in"])
@@ -988,44 +1028,48 @@ func main() {
 				fmt.Fprintf(os.Stderr, "corpus line %d: %v\n", n+1, err)
 				os.Exit(1)
 			}
-			jobs = append(jobs, j)
+			sk.add(j)
 		}
 	case "gen":
 		seed := common.ArgU64(args, "seed", 1)
 		thorough := args["tier"] == "thorough"
-		depth := common.ArgInt(args, "depth", 4)
-		nrand := common.ArgInt(args, "n", 1200)
+		depth := common.ArgInt(args, "depth", 5)
+		nrand := common.ArgInt(args, "n", 3000)
 		if thorough {
-			depth = common.ArgInt(args, "depth", 5)
-			nrand = common.ArgInt(args, "n", 40000)
+			depth = common.ArgInt(args, "depth", 6)
+			nrand = common.ArgInt(args, "n", 100000)
 		}
-		emit := func(j job) { jobs = append(jobs, j) }
+		for _, j := range timerJobs() {
+			sk.add(j)
+		}
 		for _, proto := range []string{"tws", "gws"} {
-			a := alphabet(proto, thorough)
+			r := common.NewRand(seed*2 + map[string]uint64{"tws": 0, "gws": 1}[proto])
+			for k := 0; k < nrand; k++ {
+				sk.add(job{proto, "far", randomScript(r, proto, k%3 == 2)})
+			}
+			a := alphabet(proto, false)
 			if proto == "tws" {
 				// without an init nothing can start: all sequences to depth-1, and all sequences of
 				// length depth+1 that begin with connection_init
-				enumerate(proto, a, depth-1, nil, emit)
-				enumerate(proto, a, depth, []inp{{kind: "init", arg: "none"}}, emit)
+				enumerate(proto, a, depth-1, nil, sk.add)
+				enumerate(proto, a, depth, []inp{{kind: "init", arg: "none"}}, sk.add)
 			} else {
-				enumerate(proto, a, depth, nil, emit)
+				enumerate(proto, a, depth, nil, sk.add)
 			}
-			r := common.NewRand(seed*2 + map[string]uint64{"tws": 0, "gws": 1}[proto])
-			for k := 0; k < nrand; k++ {
-				jobs = append(jobs, job{proto, "far", randomScript(r, proto, k%3 == 2)})
+			if thorough {
+				// the wider alphabet (second ids, rejected init, unknown types, second goroutine picks) one level less deep
+				w := alphabet(proto, true)
+				if proto == "tws" {
+					enumerate(proto, w, depth-1, []inp{{kind: "init", arg: "none"}}, sk.add)
+				} else {
+					enumerate(proto, w, depth-1, nil, sk.add)
+				}
 			}
 		}
-		jobs = append(jobs, timerJobs()...)
 	default:
 		fmt.Fprintln(os.Stderr, "unknown subcommand")
 		os.Exit(2)
 	}
-	lines := runJobs(jobs, workers)
-	seen := map[string]bool{}
-	for _, l := range lines {
-		if !seen[l] {
-			seen[l] = true
-			out.Line(l)
-		}
-	}
+	sk.flush()
+	fmt.Fprintf(os.Stderr, "c19: %d distinct cases\n", sk.written)
 }
